@@ -9,7 +9,10 @@ tie   : the extracted model (ocaml/c17) is driven with the same generated dictio
         working tree); (key, commits, tick) dumps, metadata, return values and the written
         snapshot/export files are diffed after every operation;
 search: the property's own oracle (no key lost, magnitude = max, tick = max, idempotence,
-        round trip) is evaluated on the implementation's dumps alone; a memcheck run of the
+        round trip) is evaluated on the implementation's dumps alone; after EVERY backup /
+        sync / direct backup of a history the harness restores the snapshot just written into a
+        fresh empty dictionary (B lines) and the oracle compares keys and commit counts with
+        the dictionary that was backed up; a memcheck run of the
         same harness supports the "reads no uninitialised state" clause.
 """
 import hashlib
@@ -53,6 +56,14 @@ MUTATION_DRILLS = [
                                 "VERIF_REPO=<worktree> python3 gen/udb_inits.py)",
      "tests_pass": None, "detected": True,
      "fired": "Gen/Inits.v: uninitialised_locals = [(operator(), num_entries)], all_read_members_initialised = false, so C17_members_initialised no longer checks"},
+    {"id": "M12", "mutation": "user_db.cc UserDbHelper::UniformBackup: skip writing when the snapshot file exists with the same metadata "
+                                "(/db_name, /db_type, /rime_version, /tick, /user_id) and the same number of records (re-implementation of the "
+                                "round-2 seeded change; 2026-09-29, scratch worktree of /repo HEAD, quick tier)",
+     "tests_pass": True, "detected": True,
+     "fired": "VIOLATION with failing input: backup-roundtrip-differs:backup (boundary case b79: backup 0; merge 0 1 with an equal-tick "
+              "dictionary raising a 3->9 and b -2->-6; backup 0 to the same path; the harness restores the written snapshot into a fresh "
+              "dictionary: a=3, b=-2 where a=9, b=-6 were backed up); also backup-roundtrip-differs:sync (b80), magnitude-not-max / "
+              "roundtrip-differs after later restores of the stale snapshot (r2, r6)"},
     {"id": "M10", "mutation": "tsv.cc TsvWriter: metadata lines written as `#@key value` (blank instead of TAB)",
      "tests_pass": True, "detected": True, "fired": "VIOLATION with failing input: tick-not-max, key-lost-theirs, magnitude-not-max after sync (restore of such a snapshot fails)"},
 ]
@@ -211,6 +222,50 @@ def gen_conv_case(rng, cid):
     return c
 
 
+TIDY_CODES = [b"a", b"ba", b"zhong guo", b"ni hao ma", b"x", b"q'r", b"lv", b"ABC"]
+PLAIN_TEXTS = ["A", "中文", "a b", "x#y", "テスト", "é", "a=b", "𠀀", "trail "]
+
+
+def gen_rebackup_case(rng, cid):
+    """back up D; change commit counts of EXISTING entries without moving the tick or the number of records
+    (merge of a snapshot / dictionary with a lower-or-equal tick, text import raising or deleting existing
+    phrases); back up D again to the same path; (the harness restores every written snapshot into a fresh
+    dictionary).  Also exercises the second backup after no change at all."""
+    keys = set()
+    while len(keys) < rng.randrange(2, 6):
+        keys.add(rng.choice(TIDY_CODES) + b" \t" + rng.choice(PLAIN_TEXTS).encode())
+    keys = sorted(keys)
+    t0 = rng.choice([5, 20, 1000, 2 ** 32])
+    t1 = rng.choice([t0, t0, t0 - 1, 1, 0])
+    small = lambda: rng.choice([1, 2, 3, -1, -2, 0])
+    big = lambda: rng.choice([9, 6, -6, -9, 1000000, -999999])
+    d0 = {k: ("c=%d d=%s t=%d" % (small(), rng.choice(DEES), rng.randrange(0, t0 + 1))).encode() for k in keys}
+    d1 = {k: ("c=%d d=%s t=%d" % (big(), rng.choice(DEES), rng.randrange(0, t1 + 1))).encode()
+          for k in keys if rng.random() < 0.8}
+    lines = []
+    for k in keys:
+        if rng.random() < 0.7:
+            code, text = k.split(b"\t")
+            lines.append(text + b"\t" + code.strip() + b"\t" + str(rng.choice([9, 7, -6, -9, 50])).encode())
+    files = {7: b"\n".join(lines) + b"\n"}
+    change = rng.choice(["merge", "restore", "import", "sync", "none"])
+    ops = [("backup", 0, None)]
+    if change == "merge":
+        ops += [("merge", 0, 1)]
+    elif change == "restore":
+        ops += [("backup", 1, None), ("restore", 0, 1)]
+    elif change == "import":
+        ops += [("import", 0, 7)]
+    elif change == "sync":
+        ops += [("backup", 1, None), ("sync", 0, None)]
+    ops += [rng.choice([("backup", 0, None), ("sync", 0, None)])]
+    if rng.random() < 0.5:
+        ops += [("import", 0, 7), ("backup", 0, None)]
+    if rng.random() < 0.5:
+        ops += [("restore", 1, 0)]
+    return dict(id=cid, g=0, dbs={0: (t0, d0), 1: (t1, d1)}, files=files, ops=ops, ood=False, paint=False)
+
+
 def boundary_cases(prefix):
     """hand-aimed at the case splits of the proofs: |o| < / = / > |v| with both signs, absent
     sides, ticks <, =, > and absent, the empty snapshot, and a merger whose storage held -N
@@ -238,6 +293,18 @@ def boundary_cases(prefix):
         ents = {k: v(2, 1) for k in [k1, k2, k3][:nent]}
         add(-nent, (10, {k1: v(1, 1)}), (20, ents), [("merge", 0, 1)])
         add(-nent, (10, {}), (20, ents), [("backup", 1, None), ("restore", 0, 1)], paint=True)
+    # re-backup to the same path after the counts (only) of existing entries changed: merge of an equal-tick and of a
+    # lower-tick dictionary, import raising / deleting existing phrases; every written snapshot is restored into a
+    # fresh dictionary by the harness and compared with what was backed up
+    for t1 in (20, 7):
+        add(0, (20, {k1: v(3, 3), k2: v(-2, 5)}), (t1, {k1: v(9, 1), k2: v(-6, 2)}),
+            [("backup", 0, None), ("merge", 0, 1), ("backup", 0, None), ("restore", 1, 0)])
+        add(0, (20, {k1: v(3, 3), k2: v(-2, 5)}), (t1, {k1: v(9, 1), k2: v(-6, 2)}),
+            [("backup", 0, None), ("backup", 1, None), ("restore", 0, 1), ("sync", 0, None)])
+    out.append(dict(id="%s%d" % (prefix, n), g=0, files={7: b"A\ta\t9\nB\tb\t-6\n"}, ood=False, paint=False,
+                    dbs={0: (20, {k1: v(3, 3), k2: v(-2, 5)}), 1: (1, {})},
+                    ops=[("backup", 0, None), ("import", 0, 7), ("backup", 0, None), ("backup", 0, None)]))
+    n += 1
     # Synchronize between three installations (replays of Udb/Examples.v ex_sync_*): back-to-back double syncs do not
     # spread u2's entries to u0; two rounds in different orders make all agree on (key, |commits|); a tie of
     # magnitudes with opposite signs keeps each side's sign for ever
@@ -520,6 +587,7 @@ def run(ctx):
     cases += [gen_case(rng, "g%d" % i) for i in range(ncases)]
     cases += [gen_case(rng, "o%d" % i, ood=True) for i in range(nood)]
     cases += [gen_conv_case(rng, "v%d" % i) for i in range(12 if ctx.tier == "quick" else 80)]
+    cases += [gen_rebackup_case(rng, "r%d" % i) for i in range(30 if ctx.tier == "quick" else 200)]
     unit = []
     for val in OOD_VALUES + [b"c=12 d=1e-3 t=99", b"c=-5 d=0 t=1099511627776", b"c=2147483647 d=1 t=18446744073709551615"]:
         unit.append("U " + hx(val))
@@ -534,7 +602,13 @@ def run(ctx):
             f.write(case_text(c))
         f.write("\n".join(unit) + "\n")
     rc, out, err = run_impl(exe, os.path.join(work, "root"), cf)
-    ilines = [l for l in out.split("\n") if l]
+    alllines = [l for l in out.split("\n") if l]
+    probes = {}
+    for l in alllines:
+        if l.startswith("B "):
+            f = l.split(" ", 4)
+            probes[(f[1], int(f[2]))] = (f[3], parse_dump(f[4]) if len(f) > 4 else None)
+    ilines = [l for l in alllines if not l.startswith("B ")]
     if rc != 0 or not ilines or ilines[-1] != "DONE":
         last = [l for l in ilines if l[:2] in ("O ", "E ", "I ")][-1:]
         ctx.violation("harness-abort", "the harness on the real user-db code ended abnormally (sanitizer report or crash) rc=%d" % rc,
@@ -587,6 +661,7 @@ def run(ctx):
     stats = dict(cases=len(cases), ops=0, merging_ops=0, roundtrips=0, idempotence_pairs=0, empty_snapshot_larger_tick=0,
                  empty_snapshot_tick_kept=0, op_kinds={}, merge_classes={}, ood_cases=sum(1 for c in cases if c["ood"]),
                  garbage_cases=sum(1 for c in cases if c["g"] != 0),
+                 backup_probes=0, rebackup_same_path_counts_changed=0,
                  sync_two_rounds_cases=0, sync_two_rounds_agree=0, sync_two_rounds_sign_differs=0,
                  sync_back_to_back_cases=0, sync_back_to_back_agree=0)
     conv_fail = []
@@ -601,7 +676,7 @@ def run(ctx):
             m = re.match(r"\s*db(\d+) (.*)", part)
             if m:
                 state[int(m.group(1))] = parse_dump(m.group(2))
-        snaps, fsrc = {}, {}
+        snaps, fsrc, written = {}, {}, {}
         prev = None
         for idx, (k, i, x) in enumerate(c["ops"]):
             if idx >= len(o.get("ops", [])):
@@ -663,6 +738,24 @@ def run(ctx):
                 for cls, det in bad:
                     fails.append(dict(cls=cls, op="%s %d %s" % (k, i, x), case=c["id"], opidx=idx, key_hex=hx(det) if isinstance(det, bytes) else str(det),
                                       before=o["ops"][idx - 1] if idx else o["init"], after=l, g=c["g"], paint=c.get("paint", False)))
+            if (c["id"], idx) in probes and not c["ood"]:
+                # the snapshot this operation wrote, restored into a fresh empty dictionary by the harness
+                pret, pd = probes[(c["id"], idx)]
+                stats["backup_probes"] += 1
+                want = {kk: vv[0] for kk, vv in after["ents"].items() if wf_key(kk)}
+                have = {kk: vv[0] for kk, vv in (pd["ents"].items() if pd else []) if kk in want}
+                path_id = ("snap", i) if k in ("backup", "sync") else ("file", x)
+                last = written.get(path_id)
+                if last is not None and set(last[0]) == set(want) and last[0] != want and last[1] == after["tick"]:
+                    stats["rebackup_same_path_counts_changed"] += 1
+                written[path_id] = (want, after["tick"])
+                if pret != "1" or want != have:
+                    diff = sorted(kk for kk in want if have.get(kk) != want[kk])[:3]
+                    fails.append(dict(cls="backup-roundtrip-differs", op="%s %d %s" % (k, i, x), case=c["id"], opidx=idx,
+                                      key_hex=hx(b" ".join(b"%s: backed up c=%d, restored c=%s" % (kk, want[kk], str(have.get(kk)).encode())
+                                                           for kk in diff)),
+                                      before=l, after="B %s %d %s %s" % (c["id"], idx, pret, sorted(have.items())[:8]), g=c["g"],
+                                      paint=c.get("paint", False)))
             prev = ((k, i, x), after, ret) if sources is not None else None
             state[i] = after
             if k in ("backup", "sync") and ret.startswith("1"):
@@ -696,7 +789,9 @@ def run(ctx):
         "rule": "cases = %d boundary cases (every |ours| </=/> |theirs| x sign x tick relation split of the merge proof, empty snapshot, "
                 "empty destination, merger storage pre-filled with -N) + seeded random cases of 2..3 LevelDB dictionaries (counts in "
                 "{INT_MIN+1, INT_MAX-1, +-1e6, -5..5}, ticks in {absent, 0..2^40}, shared/unique keys, texts with blanks, '#', UTF-8) and "
-                "1..12 operations (backup/restore/sync/merge/export/import/ubackup; out-of-domain stream adds urestore/restoref, "
+                "1..12 operations (backup/restore/sync/merge/export/import/ubackup; re-backup histories: backup, then a merge of a "
+                "lower-or-equal-tick snapshot / an import that only changes counts of existing keys, then backup to the same path; every "
+                "written snapshot is restored into a fresh dictionary and compared; out-of-domain stream adds urestore/restoref, "
                 "malformed keys/values/files and is only diffed against the model); evaluations = operations executed on the real code; "
                 "non-trivial = a (dictionary, snapshot) pair of a merging operation with at least one shared key whose two commit counts "
                 "differ in magnitude or sign; distinct by (shared keys with both counts, both ticks)" % len(boundary_cases("b")),
